@@ -173,11 +173,20 @@ class SegwitChecker(SolutionChecker):
                 raise ScriptError("witness unexpected", errno.WITNESS_UNEXPECTED)
         else:
             witness_program = puzzle_script[2:]
-            if len(solution_stack) > 0:
-                err = (
-                    errno.WITNESS_MALLEATED_P2SH if is_p2sh else errno.WITNESS_MALLEATED
+            # the scriptSig must be empty (native) or exactly the push of the witness program (P2SH)
+            if is_p2sh:
+                expected_solution_script = self.ScriptTools.compile_push_data_list(  # type: ignore[attr-defined]
+                    [puzzle_script]
                 )
-                raise ScriptError("script sig is not blank on segwit input", err)
+                if tx_context.solution_script != expected_solution_script:
+                    raise ScriptError(
+                        "script sig is not a single push of the witness program",
+                        errno.WITNESS_MALLEATED_P2SH,
+                    )
+            elif len(tx_context.solution_script) > 0:
+                raise ScriptError(
+                    "script sig is not blank on segwit input", errno.WITNESS_MALLEATED
+                )
 
             for s in tx_context.witness_solution_stack:
                 if len(s) > self.VM.MAX_BLOB_LENGTH:  # type: ignore[attr-defined]
